@@ -24,7 +24,7 @@ import (
 type CLICase struct {
 	A      []string `json:"a"`
 	B      []string `json:"b"`
-	Source string   `json:"source"` // hcl | hcldir | hcldir_schema_twice
+	Source string   `json:"source"` // hcl | hcldir | hcldir_schema_twice | diff_exec (the SQL `schema diff` prints, executed as it stands)
 }
 
 func tableRows(w *clih.Work, tab string) ([]string, error) {
@@ -84,7 +84,18 @@ func evalCLI(c CLICase) (problems []string, skipped string) {
 			f.Close()
 		}
 	}
-	ap := w.Run(nil, "schema", "apply", "--url", w.URL("a.sqlite"), "--to", to, "--auto-approve")
+	var ap clih.Result
+	if c.Source == "diff_exec" {
+		// the plan as `schema diff` prints it, executed as it stands by our own connection.
+		ap = w.Run(nil, "schema", "diff", "--from", w.URL("a.sqlite"), "--to", to, "--dev-url", "sqlite://dev?mode=memory")
+		if ap.Exit == 0 && !strings.Contains(ap.Stdout, "Schemas are synced") {
+			if err := w.Exec("a.sqlite", ap.Stdout); err != nil {
+				ap.Exit = 1
+			}
+		}
+	} else {
+		ap = w.Run(nil, "schema", "apply", "--url", w.URL("a.sqlite"), "--to", to, "--auto-approve")
+	}
 	if ap.Exit != 0 {
 		// whether the desired schema can hold the data is judged by the engine-level part; a failed
 		// apply must leave the rows alone all the same.
@@ -104,7 +115,7 @@ func evalCLI(c CLICase) (problems []string, skipped string) {
 	if err != nil {
 		bad("table t cannot be read after `schema apply`: %v", err)
 	} else if fmt.Sprint(ids2) != fmt.Sprint(ids) {
-		bad("rows of t lost by `schema apply`: ids before %v after %v", ids, ids2)
+		bad("rows of t lost by the plan (source %s): ids before %v after %v", c.Source, ids, ids2)
 	}
 	if len(problems) > 0 {
 		skipped = ""
@@ -116,7 +127,7 @@ func cliCases(tier string) []CLICase {
 	u1 := squ.Universe(1)
 	var cs []CLICase
 	for i, s := range u1 {
-		for _, src := range []string{"hcl", "hcldir", "hcldir_schema_twice"} {
+		for _, src := range []string{"hcl", "hcldir", "hcldir_schema_twice", "diff_exec"} {
 			cs = append(cs, CLICase{nil, s.Names(), src}, CLICase{s.Names(), nil, src})
 			if tier == "thorough" && i+1 < len(u1) {
 				cs = append(cs, CLICase{s.Names(), u1[i+1].Names(), src}, CLICase{u1[i+1].Names(), s.Names(), src})
